@@ -6,6 +6,7 @@ import numpy as np
 import common as C
 import gen as G
 import verde as vd
+from props import large as L
 
 ID = "C08"
 TRANSLATED = "blocksplit"  # Gen/Coords.lean (prelude) and Gen/BlockSplit.lean (the nearest-centre query, the return order) are regenerated from /repo and bridged in Props/C08.lean
@@ -27,6 +28,12 @@ def mk(es, ns, shape2d, region, shape, spacing, adjust, kind):
 
 
 def corpus():
+    return _corpus() + [L.case("block_labels", [65537, 1, [7, 9]], "corpus-large-cloud"),
+                       L.case("block_labels", [131073, 2, [5, 4]], "corpus-large-cloud"),
+                       L.case("block_labels", [70001, 3, [40, 60]], "corpus-large-cloud")]
+
+
+def _corpus():
     cs = []
     es = [0.5, 1.0, 2.0, 3.5, 4.0, 0.0, -1.0, 5.0, 2.0, 2.0]
     ns = [0.5, 1.0, 1.0, 1.5, 2.0, 0.0, 1.0, 3.0, -7.0, 0.25]
@@ -35,6 +42,12 @@ def corpus():
     cs.append(mk(es, ns, [10], (0, 4, 0, 2), (1, 4), None, "spacing", "corpus-single-row"))
     cs.append(mk(es, ns, [10], (0, 4, 0, 2), (3, 1), None, "spacing", "corpus-single-col"))
     cs.append(mk(es, ns, [10], None, None, 1.5, "region", "corpus-inferred"))
+    # pixel indices / counts as unsigned integers, some of them west or south of the whole-number region they are split over
+    ue = [3.0, 10.0, 40.0, 90.0, 130.0, 200.0, 250.0, 0.0, 60.0, 100.0]
+    un = [0.0, 5.0, 45.0, 20.0, 70.0, 110.0, 255.0, 250.0, 10.0, 55.0]
+    cs.append(mk(ue, un, [10], (50, 250, 40, 240), None, 50.0, "spacing", "corpus-unsigned-coordinates"))
+    cs.append(mk(ue, un, [10], (100, 200, 100, 200), (2, 2), None, "spacing", "corpus-unsigned-coordinates"))
+    cs.append(mk(ue, un, [2, 5], (20, 220, 60, 260), None, (100.0, 40.0), "region", "corpus-unsigned-coordinates"))
     cs.append(mk(es, ns, [10], (0, 4, 0, 2), (2, 2), 1.0, "spacing", "malformed"))
     cs.append(mk(es, ns, [10], (0, 4, 0, 2), None, None, "spacing", "malformed"))
     cs.append(mk(es, ns, [10], (4, 0, 0, 2), None, 1.0, "spacing", "malformed"))
@@ -90,6 +103,9 @@ def generate(rng, tier):
 
 
 def impl(case):
+    if case["fn"] == "large":
+        r = C.call(L.run, case["args"])
+        return r if C.is_err(r) else ["large", r]
     es, ns, shape2d, region, shape, spacing, adjust = case["args"]
     e = C.mkarr(es, shape2d, "es:" + case["op"])
     n = C.mkarr(ns, shape2d, "ns:" + case["op"])
@@ -113,6 +129,9 @@ def impl(case):
         # whole-number bounds as the caller has them: Python ints, or an integer array (a region read from metadata)
         k_ = zlib.crc32(("intregion" + case["op"][:2000]).encode()) % 3
         reg_arg = [int(v) for v in region] if k_ == 0 else np.array(region).astype("int64") if k_ == 1 else region
+    if case["kind"] == "corpus-unsigned-coordinates":
+        e, n = e.astype("uint8"), n.astype("uint16")
+        reg_arg = [int(v) for v in region] if len(case["op"]) % 2 else np.array(region, dtype="int64")
     r = C.call(vd.block_split, (e, n), spacing=spacing, adjust=adjust, region=reg_arg, shape=shape)
     if C.is_err(r):
         return r
@@ -123,6 +142,8 @@ def impl(case):
 
 
 def compare(case, io, mo):
+    if case["fn"] == "large":
+        return "diff:implementation failed: " + io[1] if C.is_err(io) else "ok"
     e = C.err_compare(io, mo)
     if e:
         return e
@@ -188,6 +209,8 @@ def _allowed(x, lo, step, m, eps):
 
 
 def oracle(case, io):
+    if case["fn"] == "large":
+        return (io[1] or None) if not C.is_err(io) else "failed on a large input: " + io[1]
     es, ns, shape2d, region, shape, spacing, adjust = case["args"]
     sp = None if spacing is None else list(np.atleast_1d(spacing))
     bad = (shape is None) == (spacing is None) or (region is not None and (region[0] > region[1] or region[2] > region[3]))
@@ -224,6 +247,8 @@ def oracle(case, io):
 
 
 def nontrivial(case, io):
+    if case["fn"] == "large":
+        return not C.is_err(io)
     return (not C.is_err(io)) and len(io[0]) >= 2 and len(io[1]) >= 2
 
 
